@@ -120,6 +120,11 @@ MUTATIONS = [
       '__mul_64x128_to_128', '__mul_64x128_short', '__mul_64x192_to_256', '__mul_128x128_to_256', '__mul_128x128_low', '__mul_128x128_full',
       '__mul_128x128_high', '__sqr128_to_256'],
      '__mul_64x64_to_128 carries PM >> 31: the helper and every helper built on it (the _full/_fast/MACH/HIGH variants are separate functions)', 'H'),
+    ('I01', 'bid128_frexp.rs', 'exp      = (exp_x - 6176 + (q as u32)) as i32;', 'exp      = (exp_x - 6175 + (q as u32)) as i32;', 0,
+     ['bid128_frexp'], 'frexp: exponent bias off by one', 'I'),
+    ('J01', 'bid128_to_int32.rs', '            value if value > 10 => { // x >= 10^10 ~= 2^33.2... (cannot fit in 32 bits)',
+     '            value if value > 11 => { // x >= 10^10 ~= 2^33.2... (cannot fit in 32 bits)', 0,
+     ['bid128_to_int32_rnint'], 'to_int32_rnint: the 11-integer-digit operands are no longer rejected (inside the domain of the PARTIAL theorem)', 'J'),
     # harmless edits: everything must still check
     ('H01', NC, None, None, 0, [], 'is_zero: local variable sig_x renamed to sx (whole function)'),
     ('H02', NC, '    let x_exp: BID_UINT64;\n    let y_exp: BID_UINT64;\n\n    #[cfg(target_endian = "big")]\n    let mut x = *x;',
